@@ -619,7 +619,7 @@ const ruleCommon = "rapid: call chain of 0-12 links drawn from 21 link kinds (de
 
 var traceFacet = harness.Register(&harness.Facet[m19.Case]{
 	Name:  "trace",
-	Rule:  ruleCommon + "This facet: every run-time raising construct (14 kinds, 165 variants), ASCII source with LF.",
+	Rule:  ruleCommon + "This facet: every run-time raising construct (14 kinds, 515 variants), ASCII source with LF.",
 	Quick: 1800, Thorough: 30000,
 	Gen:   func(t *rapid.T) m19.Case { return genCase(t, "trace") },
 	Check: checkCase,
@@ -640,6 +640,30 @@ var unicodeFacet = harness.Register(&harness.Facet[m19.Case]{
 	Gen:   func(t *rapid.T) m19.Case { return genCase(t, "unicode") },
 	Check: checkCase,
 })
+
+// numberFormatFacet enumerates every (receiver, call) combination of the bad radix / bad precision
+// constructs, each at top level and inside a function called through direct eval.
+var numberFormatFacet = harness.Register(&harness.Facet[m19.Case]{
+	Name: "number-format-all",
+	Rule: "complete enumeration: 17 receivers (ordinary numbers, 1e21, NaN, +/-Infinity, +/-0 as variables, global names, a parenthesised literal and Number objects) x 21 calls (toString with radix 1, 37, 0, -1, +/-Infinity, NaN, 1.9, \"x\"; toFixed with 101, -1, +/-Infinity; toExponential with -1, 101, Infinity; toPrecision with 0, 101, -1, Infinity, NaN), where ES5 15.7.4.2/5/6/7 mandates the RangeError for that receiver (toExponential/toPrecision return before the range test for NaN and the infinities: those receivers get a bad radix instead); each in global code and in a declared function reached through direct eval, checked like every other case (class, chain, message, error text, trace). non-trivial = all (distinct receiver/call pairs).",
+	Check: func(c m19.Case) harness.Outcome {
+		o := checkCase(c)
+		o.Nontrivial = o.Fail == "" && o.Discard == ""
+		return o
+	},
+})
+
+func TestNumberFormatAll(t *testing.T) {
+	var cases []m19.Case
+	for v := 0; v < m19.NumberFormatVariants; v++ {
+		for i, links := range [][]m19.Link{nil, {{Kind: "decl", Stmt: "return"}, {Kind: "eval"}}} {
+			cases = append(cases, m19.Case{Links: links, Raise: m19.Raise{Kind: "number-format", Var: v, Stmt: []string{"expr", "var"}[i]},
+				Tape: []byte{byte(v), 7, 3, byte(v >> 3)}, Limit: 10, File: "a.js", Route: "compile"})
+		}
+	}
+	harness.SetExhaustive(numberFormatFacet.Name)
+	numberFormatFacet.Each(t, cases)
+}
 
 func TestTrace(t *testing.T)   { traceFacet.Run(t) }
 func TestSyntax(t *testing.T)  { syntaxFacet.Run(t) }
